@@ -23,9 +23,10 @@ namespace GeomV.C19.Ties
 open GeomV GeomV.C19 GeomV.C19.Go GeomV.C19.Gen
 
 variable {α : Type} [Field α] [LinearOrder α] [IsStrictOrderedRing α]
+variable {geoOf : Nat → List (Pt α)}
 
 /-- `Node(id)`: the stored node with that id, `nil` (`none`) otherwise; never a fault -/
-theorem tie_Node (C : Ctx α) (g : Network α) (net : Net α) (hR : Rep g net) (id : Nat) :
+theorem tie_Node (C : Ctx α) (g : Network α) (net : Net α) (hR : Rep geoOf g net) (id : Nat) :
     network_Node C g id = .ok (net.nodes.find? (fun n => n.id == id)) := by
   unfold network_Node mapGetD mapGet?
   rw [hR.nodeMap, lookup_nodeMap]
@@ -33,11 +34,11 @@ theorem tie_Node (C : Ctx α) (g : Network α) (net : Net α) (hR : Rep g net) (
 
 /-- `Edge(u, v)`: never a fault; `nil` for an unknown `u`; otherwise the entry `neighbors[u][v]`, related to the model's
 `neighbor net u v` (same length, speed, time, end-node ids; `nil` iff the model has no such link) -/
-theorem tie_Edge (C : Ctx α) (g : Network α) (net : Net α) (hR : Rep g net) (u v : Nat) :
+theorem tie_Edge (C : Ctx α) (g : Network α) (net : Net α) (hR : Rep geoOf g net) (u v : Nat) :
     ∃ r, network_Edge C g u v = .ok r ∧
       (hasNode net u = false → r = none) ∧
       (hasNode net u = true → match r, neighbor net u v with
-        | some ge, some me => ERel ge me
+        | some ge, some me => ERel geoOf ge me
         | none, none => True
         | _, _ => False) := by
   unfold network_Edge
@@ -106,7 +107,7 @@ theorem forMapAux_setIdx {β γ : Type} (f : Nat → γ) (z : γ) :
 
 /-- **`From(n)`**: never a fault; `nil` for an unknown node; for a known node the `nodeMap` images of the keys of
 `neighbors[n]`, one per entry, in the order `C.mo.perm` visits the map (any order that keeps the number of entries) -/
-theorem tie_From (C : Ctx α) (g : Network α) (net : Net α) (hR : Rep g net) (n : Nat)
+theorem tie_From (C : Ctx α) (g : Network α) (net : Net α) (hR : Rep geoOf g net) (n : Nat)
     (hlen : (C.mo.perm (mapGetD g.neighbors n [])).length = (mapGetD g.neighbors n []).length) :
     network_From C g n = .ok (if hasNode net n then
         some ((C.mo.perm (mapGetD g.neighbors n [])).map fun kv => mapGetD g.nodeMap kv.1 none)
@@ -127,7 +128,7 @@ theorem tie_From (C : Ctx α) (g : Network α) (net : Net α) (hR : Rep g net) (
 
 /-- an id is listed by `From(n)` iff the model has a link between `n` and it — for any visiting order that is a
 permutation of the entries -/
-theorem tie_From_mem (C : Ctx α) (g : Network α) (net : Net α) (hR : Rep g net) (n : Nat)
+theorem tie_From_mem (C : Ctx α) (g : Network α) (net : Net α) (hR : Rep geoOf g net) (n : Nat)
     (hperm : (C.mo.perm (mapGetD g.neighbors n [])).Perm (mapGetD g.neighbors n [])) (hn : hasNode net n = true) :
     ∃ l, network_From C g n = .ok (some l) ∧ l.length = (mapGetD g.neighbors n []).length ∧
       ∀ v, (∃ kv ∈ mapGetD g.neighbors n [], kv.1 = v) → (neighbor net n v).isSome = true := by
